@@ -12,7 +12,8 @@
 
    The answer is three-valued: [Unknown] where the text does not decide (ill-formed query pieces, an edge
    missing from the class table, zero axles) or where the vehicle's quantity is within a relative band of
-   1e-9 of the limit (binary64 rounding of the conversion may fall on either side there). *)
+   1e-9 of the limit (binary64 rounding of the conversion may fall on either side there); when vehicle and
+   restriction use the same unit there is no conversion and no band: at the limit is admitted, one float above is not. *)
 From Coq Require Import ZArith QArith Qabs String List Bool Floats Arith.
 From RC Require Import Base.Num Base.Json Model.Units Model.Frontier.
 Import ListNotations.
@@ -97,7 +98,12 @@ Definition row_admits (query : json) (name : string) (limit : Q) (unit : string)
           match (if is_weight then weight_factor vu unit else dist_factor vu unit) with
           | None => Unknown
           | Some k =>
-              if per_axle then
+              (* vehicle and restriction in the same unit, nothing divided (or divided by one axle): the code compares
+                 the two given numbers themselves, no rounding can intervene, so the text decides exactly - in
+                 particular a vehicle AT the limit does not exceed it and is admitted *)
+              let one_axle := match vehicle_axles query with Some n => Qeq_bool n 1 | None => false end in
+              if String.eqb vu unit && (negb per_axle || one_axle) then tri_of_bool (Qle_bool v limit)
+              else if per_axle then
                 match vehicle_axles query with
                 | Some n => within_limit (v * k / n) limit
                 | None => Unknown
